@@ -8,7 +8,10 @@
 #include "world.hpp"
 
 using namespace rlbox;
-using Cfg = vsbx_ilp32m;
+#ifndef CFG
+#  define CFG vsbx_ilp32m
+#endif
+using Cfg = CFG;
 using Wd = world::W<Cfg>;
 using S = Wd::S;
 
@@ -20,8 +23,12 @@ static void probe(Wd::sbx& a, const char* tn, uintptr_t base, uintptr_t size)
   constexpr size_t gs = sizeof(tainted_volatile<T, S>);
   for (int count : { 1, 3 }) {
     for (int64_t back = 0; back <= int64_t(gs) * count + 2; back++) {
-      uint64_t rep = static_cast<uint64_t>(int64_t(size) - back) & 0xffffffffu;
+      uint64_t rep = static_cast<uint64_t>(int64_t(size) - back) & (sizeof(typename Cfg::P) == 4 ? 0xffffffffull : ~0ull);
       if (rep == 0) continue;
+      bool fits = back >= int64_t(gs) * count; // the whole destination lies inside
+      // (a block that fits but is not aligned for its elements is legal for the library to use and makes the element-wise
+      // path bind misaligned references, which the alignment sanitizer reports: not driven)
+      if (fits && back % int64_t(gs) != 0) continue;
       T buf[3] = { T(1), T(2), T(3) };
       bool copied = false;
       uintptr_t got = 0;
@@ -31,7 +38,6 @@ static void probe(Wd::sbx& a, const char* tn, uintptr_t base, uintptr_t size)
       S::hostile_malloc_repr = 0;
       mon::evals();
       mon::distinct(mon::mix(std::hash<std::string>()(tn), mon::mix(count, back)));
-      bool fits = back >= int64_t(gs) * count; // the whole destination lies inside
       if (ab) { if (fits) mon::violation(mon::fmt("C10/copy_memory_or_grant_access/hostile-allocator/%s/legal-request-refused", tn), mon::fmt("count %d, block at size-%lld", count, (long long)back)); else n_abort++; continue; }
       if (fits && got == base + rep) { n_ok++; continue; }
       if (!fits)
